@@ -1915,6 +1915,12 @@ fn gate(args: &Args) -> i32 {
 				got = got_rx.recv_timeout(Duration::from_millis(10 * wait_ms));
 			}
 		}
+		// KV!ResizeGate: whatever the writer's batch() did, the map is not replaced under our open iterator
+		let map_now = map_region(&data_file).map(|m| m.1).unwrap_or(0);
+		if map_now != map0 {
+			return finish(json!({"reached": true, "class": "remapped", "iterations": it_no, "map_before": map0, "map_after": map_now,
+				"pages": data_pages(&dir), "writer_batch_returned": got.is_ok()}));
+		}
 		match got {
 			Ok(()) => {
 				// no enlargement pending: an ordinary small batch
@@ -2209,6 +2215,8 @@ fn nested(args: &Args) -> i32 {
 					"mapfull"
 				} else if op == "panic" {
 					"panic"
+				} else if op == "remap" {
+					"remapped"
 				} else {
 					"error"
 				};
@@ -2225,6 +2233,15 @@ fn nested(args: &Args) -> i32 {
 			}
 		}
 	}
+}
+
+/// KV!ResizeGate / NoRemapUnderTxn seen from the thread that holds the iterator: the mapping it was opened on is still there
+fn remap_check(at_open: Option<(u64, u64)>, data_file: &str) -> Result<(), String> {
+	let now = map_region(data_file);
+	if now != at_open {
+		return Err(format!("remap:{:?} -> {:?}", at_open, now));
+	}
+	Ok(())
 }
 
 fn nested_worker(store: Arc<Store>, sup: Arc<Sup>, dir: &str, data_file: &str, seed: u64, max_rounds: u64) -> Result<(Vec<Value>, Value), String> {
@@ -2258,6 +2275,7 @@ fn nested_worker(store: Arc<Store>, sup: Arc<Sup>, dir: &str, data_file: &str, s
 		// (1) the iterator, held to the end of the round; (2) its first item looked up: transactions opened and
 		// closed under the iterator
 		let mut it = scn.iter_open(S_ITER, 1, 1, 1)?;
+		let map_open = map_region(data_file);
 		let first = scn.iter_next(1, &mut it)?;
 		let k1 = first.map(|p| p.0).unwrap_or(1);
 		scn.exists(1, 1, k1)?;
@@ -2293,6 +2311,7 @@ fn nested_worker(store: Arc<Store>, sup: Arc<Sup>, dir: &str, data_file: &str, s
 			scn.iter_next(2, &mut it2)?;
 			scn.iter_close(2, it2);
 			scn.iter_next(1, &mut it)?;
+			remap_check(map_open, data_file)?;
 			scn.iter_close(1, it);
 			// the other thread's batch goes on once the iterator is closed (and the map has been enlarged)
 			sup.beat(S_HELPER);
@@ -2330,6 +2349,7 @@ fn nested_worker(store: Arc<Store>, sup: Arc<Sup>, dir: &str, data_file: &str, s
 			scn.iter_next(2, &mut it2)?;
 			scn.iter_close(2, it2);
 			scn.iter_next(1, &mut it)?;
+			remap_check(map_open, data_file)?;
 			scn.iter_close(1, it);
 			if pending {
 				sup.beat(S_HELPER);
